@@ -302,7 +302,7 @@ class C02(Suite):
     case_ty = "case"
     obs_ty = "obs"
     kf = "kf"
-    kf_ids = {1: "F17"}
+    kf_ids = {1: "F17", 2: "F20"}
     corr = ("ConjunctiveGraph._spoc/_graph/add/addN/remove/triples/quads/__contains__/__len__/contexts/"
             "get_context/remove_context, Dataset.graph/add_graph/remove_graph/graphs/quads, over Memory")
     quick_n = 900
